@@ -173,7 +173,7 @@ class ModelRegistry:
         replaces = []
         replaces_ids = set()
         for group in groups:
-            model_meta = self._merge(generator, *group)
+            model_meta = self._merge(generator, *(model for model in tuple(self.models) if model in group))
             generator.optimize_type(model_meta)
             replaces_ids.add(model_meta.index)
             replaces.append((model_meta, group))
